@@ -1155,10 +1155,33 @@ class unyt_array(np.ndarray):
         if self.units.same_dimensions_as(conv_unit):
             self.convert_to_units(conv_unit)
             return
-        this_equiv = equivalence_registry[equivalence](in_place=True)
+        this_equiv = equivalence_registry[equivalence]()
         if self.has_equivalent(equivalence):
-            this_equiv.convert(self, conv_unit.dimensions, **kwargs)
-            self.convert_to_units(conv_unit)
+            # An equivalence is a chain of several operations, any of which
+            # may fail. Run the chain on a copy and store its result, so that
+            # a conversion that raises leaves the array as it was.
+            new_arr = this_equiv.convert(self, conv_unit.dimensions, **kwargs)
+            new_arr = new_arr.in_units(conv_unit)
+            values = self.d
+            if not values.flags.writeable:
+                raise ValueError("Can't convert a read-only array in place.")
+            if self.dtype.kind in ("u", "i"):
+                # see convert_to_units for how an integer buffer is retyped
+                dsize = values.dtype.itemsize
+                if dsize == 1:
+                    raise ValueError(
+                        "Can't convert memory buffer in place. "
+                        f"Input dtype ({self.dtype}) has a smaller itemsize than the "
+                        "smallest floating point representation possible."
+                    )
+                new_dtype = "f" + str(dsize)
+                new_values = np.asarray(new_arr.d, dtype=new_dtype)
+                values.dtype = new_dtype
+                self.dtype = new_dtype
+                np.copyto(values, new_values)
+            else:
+                np.copyto(values, new_arr.d, casting="same_kind")
+            self.units = new_arr.units
             # set name to None since the semantic meaning has changed
             self.name = None
         else:
